@@ -1,5 +1,5 @@
 CFG = {
-    "modules": ["Parsley.Props.C04", "Parsley.Props.C04Ctx"],
+    "modules": ["Parsley.Props.C04", "Parsley.Props.C04Ctx", "Parsley.Props.C04E2E", "Parsley.Props.C04Hist"],
     "theorems": [
         "Parsley.C04.prev_cycle_or_oob_rejected", "Parsley.C04.root_from_newest", "Parsley.C04.merge_is_newest_wins_partial",
         "Parsley.C04.infoOf_inFile",
@@ -15,6 +15,15 @@ CFG = {
         "Parsley.LoaderStage.newest_wins_classic_partial", "Parsley.LoaderStage.newest_wins_classic_chain_partial",
         "Parsley.LoaderStage.classic_chain_ctx", "Parsley.LoaderStage.chain_classic_noStm", "Parsley.LoaderStage.chain_unique",
         "Parsley.LoaderStage.fs_chain",
+        # follow-up C03c: unconditional end-to-end theorem for two-revision histories
+        "Parsley.C04.newest_wins_two_revisions", "Parsley.C04.newest_wins_two_revisions_objs", "Parsley.C04.newest_wins_two_revisions_spec",
+        "Parsley.C04.exTwo_wf", "Parsley.LoaderE2E.load_two_rev", "Parsley.LoaderE2E.xrefinfo_two", "Parsley.LoaderE2E.stage_merged",
+        "Parsley.LoaderE2E.load_two_core", "Parsley.LoaderE2E.load_two_rev_spec",
+        # ... and for histories of ANY number of revisions
+        "Parsley.C04.newest_wins_history", "Parsley.C04.newest_wins_history_objs", "Parsley.C04.newest_wins_history_spec",
+        "Parsley.C04.exHist2_wf", "Parsley.C04.exHist3_wf",
+        "Parsley.LoaderE2E.xrefLoop_secs", "Parsley.LoaderE2E.xrefinfo_secs", "Parsley.LoaderE2E.HistFile.xrefinfo_hist",
+        "Parsley.LoaderE2E.load_hist_core", "Parsley.LoaderE2E.load_hist", "Parsley.LoaderE2E.load_hist_spec",
     ],
     "partial": {
         "merge_is_newest_wins_partial":
@@ -29,6 +38,17 @@ CFG = {
             "newest_wins_classic_chain_partial: for chains of classic tables the side conditions (empty context after the walk, no in-stream entry) are proved from the "
             "chain itself (ClassicAt at every visited offset); newest_wins_written_partial: and the premise ReadsAt is discharged for objects written in any legal "
             "spelling (C02.Spells via LoaderE2E.reads_spelled). Non-vacuity: evaluated on the two-revision file freeStable (fs_chain, fs_walk, fs_reads). "
+            "PROVED UNCONDITIONALLY (follow-up C03c; Props/C04Hist.lean: newest_wins_history, _objs, _spec; two-revision instance Props/C04E2E.lean: newest_wins_two_revisions): "
+            "for every file 'garbage, header, ANY number of revisions (each: objects, classic table, trailer in any spelling, then ARBITRARY bytes - e.g. that revision's own "
+            "startxref / %%EOF), startxref / %%EOF' that is well formed (HistFile.WF: lexical conditions, no /XRefStm, each table lists exactly its revision's objects at their "
+            "offsets and every number once, no /Prev in the base revision, every later /Prev = offset of the previous table, last startxref = newest table, /Root in the newest "
+            "trailer, stable generations across all tables; all offsets computed from the layout, none assumed) parse_data accepts, reports the newest root, and per object number "
+            "the NEWEST table that mentions it decides (in use: bound to the value written there, no other generation; free: undefined even if older revisions define it; "
+            "unmentioned: undefined); the final context equals DocSpec.resolve of what the revisions said (newest_wins_history_spec). No hypothesis about the walk remains "
+            "(xrefinfo_hist: get_xref_info = first-occurrence merge of all tables newest first, fuel sufficient, context untouched; getXrefInfo = ok, Chain, ClassicAt, StableGen X, "
+            "ReadsAt are all derived). Non-vacuity exHist2_wf (= exTwo: base 1=7, 2=8, 3=5; update redefines 1, frees 2), exHist3_wf (a second update re-creates 2). "
+            "STILL OPEN: cross-reference-stream / hybrid sections inside a history (single revisions of those kinds: C03 load_defines_exactly_xrefstream_all / _hybrid_all), "
+            "objects that load only in the second pass (forward /Length) in a history, the link renderHistory -> HistFile. "
             "EXCLUDED (real defects, known findings with witness theorems, not proof gaps): histories in which a number changes generation (#29) and object-stream "
             "members mentioned again later (#30; more generally any in-stream entry); also hybrid sections and objects that only load in the second pass. NOT proved: "
             "that a history rendered by DocSpec.renderHistory satisfies the hypotheses (getXrefInfo succeeds along the rendered chain) - C03's load_defines_exactly_classic "
@@ -70,6 +90,9 @@ LEVEL = {
             "generations exactly the newest entry per object number survives (freed numbers are not loaded, in-use ones are loaded from their newest "
             "offset). The two cases the code gets wrong are recorded as known findings with executable classifiers and witness theorems evaluated on "
             "concrete files: a free entry with the standard's generation bump leaves the object defined (#29), and an object-stream member redefined "
-            "later is bound to its OLD value while its stream neighbours are lost (#30). The end-to-end statement is decided on the real code by the "
+            "later is bound to its OLD value while its stream neighbours are lost (#30). END-TO-END THEOREM newest_wins_history: for every well-formed history of ANY number "
+            "of classic-table revisions (declarative layout HistFile, all offsets computed from the layout, stable generations) parse_data accepts, reports the newest "
+            "root and the final context equals the oracle DocSpec.resolve of what the revisions said. Histories with stream / hybrid sections, changing generations and "
+            "object streams are decided on the real code by the "
             "oracle over generated histories (add / redefine / free, mixed table and stream sections, all /Prev targets).",
 }
